@@ -54,46 +54,57 @@ class core_reporter_prefix:
 # ---- R1 ---------------------------------------------------------------------------------------------
 
 def r1(F, R):
+    """Stats::execution_has_failed is `failed_steps > 0 || parsing_errors > 0 || hook_errors > 0`, on its deep path table."""
+    from . import deep as D
     bs = [b for b in F.crate_bodies() if b.impl and b.impl.get("provided") and b.impl["trait"] == "writer::Stats"
           and b.name.endswith("::execution_has_failed")]
     if len(bs) != 1:
         raise Unverifiable(f"provided Stats::execution_has_failed: {len(bs)}")
     b = bs[0]
-    paths = A.enumerate_paths(b)
-    getters = set()
-    ok = bool(paths)
-    detail = []
-    for p in paths:
+    rows = D.Deep(F, b, max_paths=100).run()
+
+    def getter(t):
+        return t[1].rsplit("::", 1)[-1] if isinstance(t, tuple) and t and t[0] == "call" and re.search(r"writer::Stats(<.*>)?>?::\w+$", t[1]) else None
+    getters, ok, detail, ok_cmp = set(), bool(rows), [], True
+    for p in rows:
         atoms = {}
-        for a, o in p.decisions:
-            m = re.match(r"^Gt\(writer::Stats::(\w+)\(&?self(\.\*)?\),0\)$", a)
-            if m:
-                atoms[m.group(1)] = (o == "true")
-                getters.add(m.group(1))
+        for a, o in p.conds:
+            g = getter(a[2]) if a[0] == "bin" and a[1] == "Eq" and a[3] == ("const", 0) else None
+            if g and isinstance(o, bool):
+                atoms[g] = not o   # getter != 0
+                getters.add(g)
             else:
                 ok = False
-                detail.append(f"unrecognised condition {a}")
-        expect = any(atoms.values())
-        if p.ret is None:
-            # `a || b || c` may leave the last operand as the result: _0 = Gt(..)
-            sl = A.slice_back(b, start_locals=[0])
-            last = [t for _, t in sl.calls if callee_is(t, r"Stats::hook_errors$|Stats::parsing_errors$|Stats::failed_steps$")]
-            continue
-        if p.ret != expect:
-            ok = False
-            detail.append(f"path {p.decisions} returns {p.ret}")
-    # getters consulted anywhere in the body (the last `||` operand is not a branch)
-    for s, t in b.calls():
-        f = op_fn(t["func"])
-        if f and f.get("trait") == "writer::Stats":
-            getters.add(f["path"].rsplit("::", 1)[-1])
+                ok_cmp = False
+                detail.append(f"unrecognised condition {D.fmt(b, a)[:60]}")
+        r = p.ret
+        if r[0] == "const" and isinstance(r[1], bool):
+            if r[1] != any(atoms.values()):
+                ok = False
+                detail.append(f"returns {r[1]} with {atoms}")
+        else:
+            # the last operand of `a || b || c` is the value itself: `getter > 0` / `getter != 0`
+            neg, t = False, r
+            if t[0] == "un" and t[1] == "Not":
+                neg, t = True, t[2]
+            g = None
+            if t[0] == "bin" and t[3] == ("const", 0) and getter(t[2]):
+                g = getter(t[2])
+                positive = {"Gt": True, "Ne": True, "Eq": False, "Le": False}.get(t[1])
+                if positive is None or positive == neg:
+                    ok_cmp = False
+            if g is None:
+                ok = False
+                detail.append(f"returns {D.fmt(b, r)[:60]}")
+            else:
+                getters.add(g)
+                if any(atoms.values()):
+                    ok = False
+                    detail.append("a positive count does not decide the result")
     R.check(getters == set(W.VERDICT_GETTERS), "verdict-inputs", b, f"execution_has_failed consults {sorted(getters)}",
             f"execution_has_failed consults {sorted(getters)}; expected exactly {sorted(W.VERDICT_GETTERS)}")
-    # each getter is compared `> 0` and the comparisons are OR-ed: no path returns false after a true comparison
-    cmps = [(s, st) for s, st in b.assigns(lambda st: st["rv"]["k"] == "bin")]
-    ok_cmp = all(st["rv"]["op"] == "Gt" and const_int(st["rv"]["b"]) == 0 for _, st in cmps) and len(cmps) == 3
-    R.check(ok_cmp, "verdict-comparisons", b, "three `> 0` comparisons", f"comparisons: {[(st['rv']['op'], const_int(st['rv']['b'])) for _, st in cmps]}")
-    R.check(ok, "verdict-is-disjunction", b, "true as soon as one comparison is true", "; ".join(detail)[:300])
+    R.check(ok_cmp, "verdict-comparisons", b, "each count is compared with 0", "a count is not compared with `> 0` (`!= 0`)")
+    R.check(ok, "verdict-is-disjunction", b, "true as soon as one count is positive", "; ".join(detail)[:300])
     R.floor(3)
 
 
@@ -243,38 +254,86 @@ def r3(F, R):
 # ---- R4 ---------------------------------------------------------------------------------------------
 
 def classify_getter(F, body, name):
-    """('field', path) | ('delegate', field) | ('max', fields) | ('sum', fields) | ('const', v) | ('other', why)"""
-    sl = A.slice_back(body, start_locals=[0])
-    stats_calls = [(s, t) for s, t in sl.calls if (op_fn(t["func"]) or {}).get("trait") == "writer::Stats"]
-    names = {op_fn(t["func"])["path"].rsplit("::", 1)[-1] for _, t in stats_calls}
-    if not stats_calls:
-        fp = W.getter_field(body)
-        if fp is not None:
-            return ("field", fp)
-        ints = [const_int(c) for c in sl.consts if const_int(c) is not None]
-        if not sl.places and len(ints) == 1:
-            return ("const", ints[0])
+    """('field', path) | ('delegate', field) | ('max', fields) | ('sum', fields) | ('const', v) | ('other', why) — decided on the
+    getter's deep path table (private helpers inlined), so `cmp::max(a, b)`, `if a > b { a } else { b }` and a helper doing either
+    are the same thing."""
+    from . import deep as D
+    adt = body.impl["self_adt"]
+    a = F.adts.get(("cucumber", adt))
+    fnames = [f["name"] for f in a["variants"][0]["fields"]] if a else []
+    rows = D.Deep(F, body, max_paths=60, opaque=r"writer::Stats(<.*>)?>?::\w+$").run()   # inner getters stay calls
+    if not rows or any(p.cut for p in rows):
+        return ("other", "no straight-line path table")
+
+    def getter_of(t):
+        """(inner getter name, receiver field name) if t is `<field of self>.<getter>()`"""
+        if not (isinstance(t, tuple) and t and t[0] == "call" and re.search(r"writer::Stats(<.*>)?>?::(\w+)$", t[1])):
+            return None
+        g = t[1].rsplit("::", 1)[-1]
+        idx = None
+        for x in D.subterms(t[2]):
+            if x[0] == "field" and x[1] in (("deref", ("arg", 1)), ("arg", 1)) and isinstance(x[2], int):
+                idx = x[2]
+        return (g, fnames[idx] if idx is not None and idx < len(fnames) else "?")
+    calls = set()
+    for p in rows:
+        for e in p.effects:
+            if e[0] == "call":
+                g = getter_of(("call", e[1], e[2], e[4]))
+                if g:
+                    calls.add((g, e[4]))
+    inner = sorted({g for g, _ in calls})
+    if not inner:
+        if len(rows) == 1:
+            r = rows[0].ret
+            if r[0] == "const":
+                return ("const", r[1])
+            path, x = [], r
+            while isinstance(x, tuple) and x and x[0] == "field":
+                path.append(x[2])
+                x = x[1]
+            if x in (("deref", ("arg", 1)), ("arg", 1)) and path:
+                names, cur = [], adt
+                for i in reversed(path):
+                    aa = F.adts.get(("cucumber", cur))
+                    if not aa or not isinstance(i, int) or i >= len(aa["variants"][0]["fields"]):
+                        return ("other", "unresolved field path")
+                    f = aa["variants"][0]["fields"][i]
+                    names.append(f["name"])
+                    cur = re.sub(r"<.*$", "", f["ty"])
+                return ("field", tuple(names))
         return ("other", "no inner Stats call and not a plain field/constant")
-    if names != {name}:
-        return ("other", f"calls inner getter(s) {sorted(names)}")
-    recv_fields = []
-    for s, t in stats_calls:
-        rsl = A.slice_back(body, [t["args"][0]])
-        fs = sorted({n for o, n in rsl.fields if o == body.impl["self_adt"]})
-        recv_fields.append(tuple(fs))
-    other_calls = [t for _, t in sl.calls if (op_fn(t["func"]) or {}).get("trait") != "writer::Stats"
-                   and not callee_is(t, r"Deref(Mut)?::deref(_mut)?$", r"AsRef::as_ref$", r"Borrow::borrow$")]
-    if len(stats_calls) == 1:
-        if other_calls or sl.bins:
-            return ("other", f"result of the inner getter is transformed ({[callee_path(t) for t in other_calls]}, {len(sl.bins)} arithmetic ops)")
-        return ("delegate", recv_fields[0])
-    if len(stats_calls) == 2 and recv_fields[0] != recv_fields[1]:
-        if len(other_calls) == 1 and callee_is(other_calls[0], r"cmp::max$", r"Ord::max$") and not sl.bins:
-            return ("max", recv_fields)
-        if not other_calls and len(sl.bins) == 1 and sl.bins[0][1]["op"] in ("Add", "AddWithOverflow"):
-            return ("sum", recv_fields)
-        return ("other", f"combines two inner getters with {[callee_path(t) for t in other_calls]} / {[b[1]['op'] for b in sl.bins]}")
-    return ("other", f"{len(stats_calls)} inner getter calls on fields {recv_fields}")
+    if {g for g, _ in inner} != {name}:
+        return ("other", f"calls inner getter(s) {sorted({g for g, _ in inner})}")
+    fields = [(f,) for _, f in inner]
+    if len(inner) == 1:
+        ok = len(rows) == 1 and getter_of(rows[0].ret) == inner[0]
+        return ("delegate", fields[0]) if ok else ("other", "result of the inner getter is transformed")
+    if len(inner) == 2:
+        def is_get(t, which):
+            return getter_of(t) == which
+        A_, B_ = inner
+        if len(rows) == 1:
+            r = rows[0].ret
+            if r[0] == "bin" and r[1] == "Add" and {getter_of(r[2]), getter_of(r[3])} == {A_, B_}:
+                return ("sum", fields)
+            if r[0] == "call" and re.search(r"cmp::max$|Ord::max$", r[1]) and len(r[2]) == 2 and {getter_of(r[2][0]), getter_of(r[2][1])} == {A_, B_}:
+                return ("max", fields)
+            return ("other", f"combines two inner getters as {D.fmt(body, r)[:80]}")
+        if len(rows) == 2:
+            # an explicit maximum: one comparison of the two values selects the larger one
+            ok = True
+            for p in rows:
+                cmpc = [(a2, o) for a2, o in p.conds if a2[0] == "bin" and a2[1] in ("Lt", "Le") and isinstance(o, bool) and getter_of(a2[2]) and getter_of(a2[3])]
+                if len(cmpc) != 1 or len(p.conds) != 1:
+                    ok = False
+                    continue
+                (op, x, y), o = (cmpc[0][0][1], cmpc[0][0][2], cmpc[0][0][3]), cmpc[0][1]
+                # cond: x < y  /  x <= y  is `o`;  the larger one is y if o else x (ties: either)
+                larger = y if o else x
+                ok = ok and p.ret == larger
+            return ("max", fields) if ok else ("other", "selects between the two inner getters, but not the larger one")
+    return ("other", f"{len(inner)} inner getter calls")
 
 
 def r4(F, R):
